@@ -61,6 +61,17 @@ def run(prog: Program, rep: Report, tier: str) -> None:
             tgt_ok = any(norm(cfg.nodes[n].stmt.targets[0]).endswith(f"[{r}.lhs][{e}.label]") for n in stores)
             rep.ob('C19-D1 edge-coverage', ng.fq(), f"g[{r}.lhs][{e}.label] recorded iff {e}.label is a nonterminal", ng.loc(il), not bad and tgt_ok,
                    '; '.join(bad) if bad else ('truth table agrees' if tgt_ok else 'the recorded edge is not lhs -> label of the rhs edge'))
+    if found == 0:
+        # dependencies recorded from another source than the edges of the right-hand side?
+        for l in rl:
+            r = norm(l.target)
+            for il in [x for x in ast.walk(l) if isinstance(x, ast.For) and x is not l]:
+                stores = [x for x in ast.walk(il) if isinstance(x, ast.Subscript) and isinstance(x.ctx, ast.Store) and norm(x).startswith(f"g[{r}.lhs]") or
+                          isinstance(x, ast.Subscript) and isinstance(x.ctx, ast.Store) and f"{r}.lhs" in norm(x)]
+                if stores and isinstance(il.iter, ast.Call) and callee_last(il.iter) in ('nonterminals', 'terminals', 'edge_labels'):
+                    found += 1
+                    rep.ob('C19-D1 edge-coverage', ng.fq(), f"for {norm(il.target)} in {norm(il.iter)}: dependency recorded", ng.loc(il), False,
+                           f"dependencies are taken from the label table `{norm(il.iter)}`, not from the edges of the right-hand side: the table also holds labels whose edges were removed (or never added), so X->Y is recorded without a rule for X containing a Y edge")
     rep.floor('C19-D1 edge loops', found, 1)
     # D2 scc
     sc = prog.func(UT, 'scc')
